@@ -23,6 +23,8 @@ Routes.Mapper, including automatic handlers to respond with a
 method.
 """
 
+import sys
+
 import routes
 import webob
 
@@ -221,6 +223,12 @@ class PlacementHandler(object):
         except ValueError:
             raise webob.exc.HTTPBadRequest(
                 'content-length header must be an integer',
+                json_formatter=util.json_error_formatter)
+        # A length that is not a size on this platform cannot describe a
+        # body, and reading the body with it fails.
+        if clen and int(clen) > sys.maxsize:
+            raise webob.exc.HTTPBadRequest(
+                'content-length header is too large',
                 json_formatter=util.json_error_formatter)
         try:
             return dispatch(environ, start_response, self._map)
